@@ -215,17 +215,19 @@ Definition cli_step (a : option mdt) (f : str * str) : option mdt :=
 Definition cli_collect (fs : fields) : option mdt := fold_left cli_step fs (Some []).
 
 (* ---- one unary RPC ---- *)
-Definition fail_obs (code : Z) (trl : mdt) : word := [code; 0] ++ dump [] ++ dump [] ++ dump trl.
+(* observation: [code; handler invoked; header fields written to the wire (the client's
+   stats handler saw OutHeader)] ++ handler md ++ client header ++ client trailer *)
+Definition fail_obs (code sent : Z) (trl : mdt) : word := [code; 0; sent] ++ dump [] ++ dump [] ++ dump trl.
 Definition rpc (auth : str) (md : mdt) (calls : list kvs) (h t : mdt) : word :=
   let added := map lowkv calls in                      (* AppendToOutgoingContext *)
-  if negb (validate_out md added) then fail_obs 13 [] else
+  if negb (validate_out md added) then fail_obs 13 0 [] else
   match srv_collect (request_fields auth md added) with
-  | SRst => fail_obs 13 []
-  | SEarly code => fail_obs code [(n_content_type, [ct_grpc])]
+  | SRst => fail_obs 13 1 []
+  | SEarly code => fail_obs code 1 [(n_content_type, [ct_grpc])]
   | SOk m =>
     match cli_collect (response_header_fields h), cli_collect (response_trailer_fields t) with
-    | Some hm, Some tm => [0; 1] ++ dump (from_in m) ++ dump hm ++ dump tm
-    | _, _ => [13; 1] ++ dump (from_in m) ++ dump [] ++ dump []
+    | Some hm, Some tm => [0; 1; 1] ++ dump (from_in m) ++ dump hm ++ dump tm
+    | _, _ => [13; 1; 1] ++ dump (from_in m) ++ dump [] ++ dump []
     end
   end.
 
@@ -245,7 +247,7 @@ Definition has_hop (md : mdt) (calls : list kvs) : bool :=
 Definition transport_md (auth : str) : mdt :=
   [(n_authority, [auth]); (n_content_type, [ct_grpc]); (n_user_agent, [ua])].
 Definition expect_ok (auth : str) (md : mdt) (calls : list kvs) (h t : mdt) : word :=
-  [0; 1] ++ dump (transport_md auth ++ group (visible (user_pairs md calls)))
+  [0; 1; 1] ++ dump (transport_md auth ++ group (visible (user_pairs md calls)))
          ++ dump ((n_content_type, [ct_grpc]) :: group (visible (pairs_of h)))
          ++ dump (group (visible (pairs_of t))).
 
@@ -307,7 +309,8 @@ Definition run (cfg : word) (ops : list word) : option (list word) :=
       sees the transport's three entries plus exactly the user's non-reserved pairs grouped
       per key in order, the client sees content-type plus the handler's non-reserved header
       pairs, and the handler's non-reserved trailer pairs
-   3  invalid user metadata: INTERNAL, the handler is not invoked
+   3  invalid user metadata: INTERNAL, the handler is not invoked and no header field was
+      written to the wire (no OutHeader stats event on the client)
    95 clause 1 for metadata that uses the key "host" or "connection" (statement deviation)
    0  malformed case *)
 Definition server_md_ok (m : mdt) : bool :=
@@ -317,7 +320,7 @@ Definition clause_op (auth : str) (i : Z) (w obs : word) : Z * Z * bool :=
   | None => (0, i, false)
   | Some o =>
     if negb (valid_user (o_md o) (o_calls o)) then
-      (3, i, match obs with 13 :: 0 :: _ => true | _ => false end)
+      (3, i, match obs with 13 :: 0 :: 0 :: _ => true | _ => false end)
     else
       (if has_hop (o_md o) (o_calls o) then 95 else 1, i,
        word_eqb obs (expect_ok auth (o_md o) (o_calls o) (o_h o) (o_t o)))
